@@ -177,7 +177,10 @@ void h_search(void)
     long e = ref_number_end(IN, IN_N, START);
     __CPROVER_assert(START <= ps._pos && ps._pos <= IN_N, "N1");
     __CPROVER_assert(!ok || ps._pos > START, "N2");
-    if (e >= 0 && ref_delim(IN, IN_N, (size_t)e)) { __CPROVER_assert(ok, "A1"); __CPROVER_assert(ps._pos == (size_t)e, "A2"); }
+    if (e >= 0 && ref_delim(IN, IN_N, (size_t)e)) {
+      bool fe = false; for (size_t k = START; k < (size_t)e; k++) if (IN[k] == '.' || IN[k] == 'e' || IN[k] == 'E') fe = true;
+      __CPROVER_assert(ok, "A1"); __CPROVER_assert(ps._pos == (size_t)e, "A2");
+      __CPROVER_assert(!fe || o.type == JsonType_Double, "A3 frac or exp => floating point value"); }
   }
 }
 #endif
